@@ -491,3 +491,58 @@ def run_corrupt(scn):
         out["violation"] = v.to_json()
     out["sig"] = digest([kind, j, tps, pipes])
     return out
+
+
+def run_behav(scn):
+    """every field of the statement changes simulated behaviour: the same workload simulated directly and through a
+    trace file written by the real writer must give identical tick-by-tick logs and statistics"""
+    import_repo()
+    from eudoxia.workload.csv_io import CSVWorkloadReader, CSVWorkloadWriter, WorkloadTraceGenerator
+    from . import sysdrv
+    from .repro import stats_canon, first_difference
+    out = {"violation": None, "discard": None, "faults": {}, "probes": {}, "ticks": 0, "nontrivial": False}
+    tps = scn["cfg"]["tps"]
+    pipes = scn["pipes"]
+    nticks = max(p["at"] for p in pipes) + 1
+    o1, rec1, st1 = sysdrv.run(dict(scn, kind="sys"), oracles=(), keep_rounds=False)
+    rec0 = sysdrv.Rec({"cfg": {"algo": "none"}})
+    wl = sysdrv.make_scn_workload({"pipes": pipes}, rec0)
+    f = io.StringIO()
+    w = CSVWorkloadWriter(f)
+    for row in WorkloadTraceGenerator(wl, tps, nticks / tps + 0.5 / tps).generate_rows():
+        w.write_row(row)
+    text = f.getvalue()
+
+    def factory(rec):
+        return sysdrv.wrap_workload(CSVWorkloadReader(io.StringIO(text)).get_workload(tps), rec)
+    o2, rec2, st2 = sysdrv.run(dict(scn, kind="sys"), oracles=(), workload_factory=factory, keep_rounds=False)
+    out.update({k: o1[k] for k in ("ticks", "sig", "nontrivial", "probes")})
+    if o1["violation"] or o2["violation"]:
+        if (o1["violation"] or {}).get("rule") != (o2["violation"] or {}).get("rule"):
+            out["violation"] = Violation("C14.behaviour_differs", {"direct": o1["violation"], "through_file": o2["violation"]}).to_json()
+        return out
+    if digest(rec1.canon) != digest(rec2.canon):
+        out["violation"] = Violation("C14.behaviour_differs", {"first_difference": first_difference(rec1, rec2)}).to_json()
+    elif stats_canon(st1) != stats_canon(st2):
+        out["violation"] = Violation("C14.behaviour_differs", {"direct": stats_canon(st1), "through_file": stats_canon(st2)}).to_json()
+    return out
+
+
+def gen_behav(r, tier):
+    from . import sysgen
+    scn = sysgen.gen(r, None, "C14", tier)
+    cfg = scn["cfg"]
+    cfg["tps"] = r.choice([1, 2, 4, 8, 16])          # arrivals k/tps are exact: the tick mapping (C13) is out of the picture
+    nt = r.randint(20, 150)
+    cfg["duration"] = nt / cfg["tps"]
+    if cfg["algo"] == "priority-pool":
+        cfg["multi"] = True
+    pipes = [p for p in sysgen.gen_pipes(r, nt, cfg["tps"], F(str(cfg["ram"])), "C14") if p["at"] < nt][:25]
+    for p in pipes:
+        for o in p["ops"]:
+            o["segs"] = o["segs"][:1]                 # the trace format has one segment per operator
+    if not pipes:
+        pipes = [{"prio": "BATCH_PIPELINE", "at": 0, "id": "p1", "ops": [{"par": [], "segs": [["0.5", "const", None, "4"]]}]}]
+    scn["pipes"] = pipes
+    scn["kind"] = "behav"
+    return scn
